@@ -41,29 +41,46 @@ type specDoc struct {
 }
 
 type storeRun struct {
-	prop    string
-	res     *Result
-	real    *RealColl
-	drv     *Driver
-	spec    map[uint64]*specDoc
-	ops     []Op
-	rng     *rand.Rand
-	ro      bool // collection currently opened read-only
-	cfg     [3]int
-	dead    bool
-	images  [][]byte
-	imgTags []string
-	c07     *c07ctx
-	journal *os.File
-	scen    int
+	prop      string
+	res       *Result
+	real      *RealColl
+	drv       *Driver
+	spec      map[uint64]*specDoc
+	ops       []Op
+	rng       *rand.Rand
+	ro        bool // collection currently opened read-only
+	cfg       [3]int
+	dead      bool
+	modelDead bool
+	images    [][]byte
+	imgTags   []string
+	c07       *c07ctx
+	journal   *os.File
+	scen      int
 }
 
 func (s *storeRun) replay() any {
 	return map[string]any{"scenario": s.scen, "seed": s.res.Seed, "ops": s.ops}
 }
 
+// once model and implementation have diverged the scenario goes on with the implementation alone:
+// the property oracles keep looking for a concrete failing input
+func (s *storeRun) msend(cmd string) string {
+	if s.modelDead {
+		return "model-off"
+	}
+	return s.drv.Send(cmd)
+}
+func (s *storeRun) msendNew(mode, metric, dim, quant int, path string) string {
+	if s.modelDead {
+		return "model-off"
+	}
+	return s.drv.SendNew(mode, metric, dim, quant, path)
+}
+func (s *storeRun) mdiff(m, r string) bool { return !s.modelDead && m != r }
+
 func (s *storeRun) tie(what, model, real string) {
-	s.dead = true
+	s.modelDead = true
 	s.res.Violate("tie-broken", "tie/store/"+what,
 		fmt.Sprintf("model and implementation disagree on %s: model=%s impl=%s", what, abbreviate(model, 400), abbreviate(real, 400)), s.replay())
 }
@@ -122,13 +139,16 @@ func (s *storeRun) checkState(after string) {
 	if s.dead || s.real.C == nil {
 		return
 	}
-	m := s.drv.Send("st")
+	m := s.msend("st")
 	r := s.real.St()
-	if m != r {
+	if s.mdiff(m, r) {
 		s.tie("state after "+after, m, r)
-		return
 	}
-	s.res.TracesValidated++
+	if !s.modelDead {
+		if !s.modelDead {
+			s.res.TracesValidated++
+		}
+	}
 	if s.prop == "C09" || s.prop == "ALL" {
 		sf := s.real.C.VerifSpanFile()
 		if err := checkWellFormed(sf.VerifFileBytes(), sf.VerifIndex(), sf.VerifFreeMap()); err != nil {
@@ -175,18 +195,16 @@ func (s *storeRun) do(op Op) {
 	switch op.K {
 	case "new", "reopen":
 		if op.K == "reopen" {
-			m := s.drv.Send("close")
+			m := s.msend("close")
 			r := s.real.Close()
-			if m != r {
+			if s.mdiff(m, r) {
 				s.tie("close", m, r)
-				return
 			}
 		}
-		m := s.drv.SendNew(op.Mode, op.Metric, op.Dim, op.Quant, s.real.Path)
+		m := s.msendNew(op.Mode, op.Metric, op.Dim, op.Quant, s.real.Path)
 		r := s.real.New(op.Mode, op.Metric, op.Dim, op.Quant)
-		if strings.Fields(m)[0] != r {
+		if s.mdiff(strings.Fields(m)[0], r) {
 			s.tie(op.K, m, r)
-			return
 		}
 		s.res.Hit(fmt.Sprintf("open:mode%d:%s", op.Mode, r))
 		if r != "ok" {
@@ -226,12 +244,11 @@ func (s *storeRun) do(op Op) {
 			need = spanSize(int(sf.VerifSeq()), len(rid), len(md), len(syzgydb.VerifEncodeVector(op.Vec, s.cfg[2])))
 		}
 		s.captureStart()
-		m := s.drv.Send(fmt.Sprintf("add %d %s %s", op.ID, codesStr(codes), hexW(md)))
+		m := s.msend(fmt.Sprintf("add %d %s %s", op.ID, codesStr(codes), hexW(md)))
 		r := s.real.Add(op.ID, op.Vec, md)
 		s.captureEnd()
-		if m != r {
+		if s.mdiff(m, r) {
 			s.tie("add", m, r)
-			return
 		}
 		if r == "ok" {
 			prev := s.spec[op.ID]
@@ -257,12 +274,11 @@ func (s *storeRun) do(op Op) {
 			need = spanSize(int(sf.VerifSeq()), len(rid), len(md), syzgydb.VerifGetVectorSize(s.cfg[2], s.cfg[1]))
 		}
 		s.captureStart()
-		m := s.drv.Send(fmt.Sprintf("upd %d %s", op.ID, hexW(md)))
+		m := s.msend(fmt.Sprintf("upd %d %s", op.ID, hexW(md)))
 		r := s.real.Upd(op.ID, md)
 		s.captureEnd()
-		if m != r {
+		if s.mdiff(m, r) {
 			s.tie("upd", m, r)
-			return
 		}
 		if live && r != "ok" {
 			s.fail("C01", "update-live-failed", fmt.Sprintf("UpdateDocument(%d) of a live document returned %s", op.ID, r))
@@ -288,12 +304,11 @@ func (s *storeRun) do(op Op) {
 		_, live := s.spec[op.ID]
 		hb := fnv1a(s.real.C.VerifSpanFile().VerifFileBytes())
 		s.captureStart()
-		m := s.drv.Send(fmt.Sprintf("del %d", op.ID))
+		m := s.msend(fmt.Sprintf("del %d", op.ID))
 		r := s.real.Del(op.ID)
 		s.captureEnd()
-		if m != r {
+		if s.mdiff(m, r) {
 			s.tie("del", m, r)
-			return
 		}
 		if live && r != "ok" {
 			s.fail("C01", "remove-live-failed", fmt.Sprintf("removal of live document %d returned %s", op.ID, r))
@@ -315,13 +330,14 @@ func (s *storeRun) do(op Op) {
 			s.checkState("del")
 		}
 	case "get":
-		m := s.drv.Send(fmt.Sprintf("get %d", op.ID))
+		m := s.msend(fmt.Sprintf("get %d", op.ID))
 		r, d := s.real.Get(op.ID)
-		if m != r {
+		if s.mdiff(m, r) {
 			s.tie("get", m, r)
-			return
 		}
-		s.res.TracesValidated++
+		if !s.modelDead {
+			s.res.TracesValidated++
+		}
 		sd, live := s.spec[op.ID]
 		if live {
 			if d == nil {
@@ -335,24 +351,26 @@ func (s *storeRun) do(op Op) {
 			s.fail("C01", "get-dead-succeeded", fmt.Sprintf("GetDocument(%d) of a non-live id returned %s", op.ID, abbreviate(r, 80)))
 		}
 	case "ids":
-		m := s.drv.Send("ids")
+		m := s.msend("ids")
 		r, ids := s.real.IDs()
-		if m != r {
+		if s.mdiff(m, r) {
 			s.tie("ids", m, r)
-			return
 		}
-		s.res.TracesValidated++
+		if !s.modelDead {
+			s.res.TracesValidated++
+		}
 		if want := sortedIDs(s.spec); !eqU(ids, want) {
 			s.fail("C01", "ids-mismatch", fmt.Sprintf("GetAllIDs=%v want %v", ids, want))
 		}
 	case "count":
-		m := s.drv.Send("count")
+		m := s.msend("count")
 		r, n := s.real.Count()
-		if m != r {
+		if s.mdiff(m, r) {
 			s.tie("count", m, r)
-			return
 		}
-		s.res.TracesValidated++
+		if !s.modelDead {
+			s.res.TracesValidated++
+		}
 		if n != len(s.spec) {
 			s.fail("C01", "count-mismatch", fmt.Sprintf("GetDocumentCount=%d want %d", n, len(s.spec)))
 		}
@@ -437,7 +455,31 @@ func (s *storeRun) metaLenFor(id uint64) (int, string) {
 	vecLen := syzgydb.VerifGetVectorSize(s.cfg[2], s.cfg[1])
 	ridLen := len(fmt.Sprintf("%d", id))
 	seq := int(sf.VerifSeq())
-	switch k := s.rng.Intn(10); {
+	switch k := s.rng.Intn(12); {
+	case k >= 10:
+		// force a file growth whose leftover behind the new span is 0, 1..14, 15 or more bytes:
+		// the growth amount is max(4096, size, 5% of the file), so aim just below the quantum
+		// (or below 5% of the file) with a record no free region can hold
+		maxFree := 0
+		for _, r := range sf.VerifFreeMap() {
+			if r[1] > maxFree {
+				maxFree = r[1]
+			}
+		}
+		quantum := 4096
+		if five := int(float64(len(sf.VerifFileBytes())) * 0.05); five > quantum {
+			quantum = five
+		}
+		rem := []int{0, 1, 3, 4, 7, 8, 14, 15, 16, 40}[s.rng.Intn(10)]
+		target := quantum - rem
+		if target > maxFree && target < 400000 {
+			for _, guess := range []int{1, 2, 3} {
+				md := target - (spanSize(seq, ridLen, 0, vecLen) - 1) - guess
+				if md >= 0 && l7(md) == guess && spanSize(seq, ridLen, md, vecLen) == target {
+					return md, fmt.Sprintf("grow:rem%d", rem)
+				}
+			}
+		}
 	case k < 5:
 		fm := sf.VerifFreeMap()
 		if len(fm) > 0 {
@@ -583,6 +625,9 @@ func storeMain(prop string) func(o *Opts) {
 		if o.Ops > 0 {
 			nops = o.Ops
 		}
+		if (prop == "C01" || prop == "C09" || prop == "ALL") && o.Start == 0 {
+			codecSweep(prop, res, o)
+		}
 		for i := o.Start; i < o.Start+scen; i++ {
 			s := newStoreRun(prop, res, o, i)
 			if prop == "C07" {
@@ -643,4 +688,62 @@ func init() {
 		subcommands["store-"+p] = storeMain(p)
 	}
 	subcommands["store-ALL"] = storeMain("ALL")
+}
+
+// codecSweep: the 7-bit length code on the implementation, exhaustively below 2^22 and around every
+// higher power of 2^7: the number of bytes written must be the number lengthOf7Code announces (the
+// span length field is computed from it) and the code must read back. Every value at which either
+// function changes its answer is then used as a metadata length of a real document (and compared
+// with the model byte-exactly), so that a moved boundary has a failing input at the API level.
+func codecSweep(prop string, res *Result, o *Opts) {
+	var boundaries []uint64
+	check := func(n uint64) {
+		w := syzgydb.VerifWrite7Code(n)
+		l := syzgydb.VerifLengthOf7Code(n)
+		v, used, err := syzgydb.VerifRead7Code(append(w, 0xAA), 0)
+		res.Evaluations++
+		if uint64(len(w)) != l || err != nil || v != n || used != len(w) {
+			res.Violate("impl-failure", "C01/7code-length-or-roundtrip", fmt.Sprintf("n=%d: write7Code wrote %d bytes, lengthOf7Code says %d, read back %d (%d bytes, err=%v)", n, len(w), l, v, used, err),
+				map[string]any{"n": n})
+		}
+	}
+	prevW, prevL := 0, uint64(0)
+	for n := uint64(0); n < 1<<22; n++ {
+		w := len(syzgydb.VerifWrite7Code(n))
+		l := syzgydb.VerifLengthOf7Code(n)
+		if n > 0 && (w != prevW || l != prevL) {
+			boundaries = append(boundaries, n-1, n)
+		}
+		prevW, prevL = w, l
+		if uint64(w) != l {
+			check(n)
+		}
+	}
+	res.Evaluations += 1 << 22
+	for k := uint(28); k <= 56; k += 7 {
+		for d := int64(-3); d <= 3; d++ {
+			check(uint64(int64(1)<<k + d))
+		}
+	}
+	res.Hit(fmt.Sprintf("codec-sweep:boundaries=%d", len(boundaries)))
+	// documents whose metadata length sits on each boundary
+	s := newStoreRun(prop, res, o, 9000)
+	s.do(Op{K: "new", Mode: 3, Metric: 0, Dim: 2, Quant: 8})
+	seen := map[uint64]bool{}
+	id := uint64(1)
+	for _, b := range boundaries {
+		for _, n := range []uint64{b, b + 1} {
+			if seen[n] || n > 3<<20 {
+				continue
+			}
+			seen[n] = true
+			s.do(Op{K: "add", ID: id, Vec: []float64{0.5, -0.5}, MetaLen: int(n), MetaSeed: int64(n), Why: "7code-boundary"})
+			s.do(Op{K: "get", ID: id})
+			s.do(Op{K: "upd", ID: id, MetaLen: 3, MetaSeed: 1})
+			res.Hit("size:7code-boundary")
+			id++
+		}
+	}
+	s.do(Op{K: "reopen", Mode: 1})
+	s.finish()
 }
